@@ -92,9 +92,21 @@ def blockAndKey (s : Sender) (t : MType) : Nat × Nat :=
 
 def minPadding (keyLen : Nat) : Nat := if keyLen ≤ 256 then 1 else 2
 
+/-- repaired defects of the send path (`true` = current source) -/
+structure SFixes where
+  /-- MSG/CLO chunks are padded only in SignAndEncrypt mode -/
+  signNoPad : Bool
+  /-- `body_size_from_message_size` shrinks the body until the padded chunk fits -/
+  budget : Bool
+deriving Repr, DecidableEq
+
+def SFixes.pinned : SFixes := ⟨false, false⟩
+def SFixes.current : SFixes := ⟨true, true⟩
+
 /-- `padding_size` : (padding bytes including the length byte(s), minimum padding) -/
-def paddingSize (s : Sender) (t : MType) (body : Nat) : Nat × Nat :=
+def paddingSizeW (X : SFixes) (s : Sender) (t : MType) (body : Nat) : Nat × Nat :=
   if s.policy ≠ .none ∧ s.mode ≠ .none then
+    if X.signNoPad ∧ t ≠ .opn ∧ s.mode ≠ .signEncrypt then (0, 0) else
     let (ptbs, keyLen) := blockAndKey s t
     let mp := minPadding keyLen
     let es := 8 + body + sigSize s t + mp
@@ -102,11 +114,14 @@ def paddingSize (s : Sender) (t : MType) (body : Nat) : Nat × Nat :=
     (mp + pad, mp)
   else (0, 0)
 
+def paddingSize := paddingSizeW SFixes.current
+
 /-- `MessageChunk::new` -/
+def chunkWith (s : Sender) (t : MType) (f : Fin) (size seq req : Nat) (body : Bytes) : Bytes :=
+  t.code ++ [f.byte] ++ u32le size ++ u32le s.chanId ++ secHdr s t ++ u32le seq ++ u32le req ++ body
+
 def newChunk (s : Sender) (t : MType) (f : Fin) (seq req : Nat) (body : Bytes) : Bytes :=
-  let sh := secHdr s t
-  t.code ++ [f.byte] ++ u32le (12 + sh.length + 8 + body.length) ++ u32le s.chanId ++ sh ++
-    u32le seq ++ u32le req ++ body
+  chunkWith s t f (12 + (secHdr s t).length + 8 + body.length) seq req body
 
 inductive EncRes where
   | chunks (cs : List Bytes)
@@ -114,13 +129,29 @@ inductive EncRes where
   | panic
 deriving Repr, DecidableEq
 
-/-- everything of a chunk that is not body: headers + worst-case padding + signature -/
-def overhead (s : Sender) (t : MType) : Nat :=
-  12 + (secHdr s t).length + 8 + (paddingSize s t 1).1 + sigSize s t
+/-- everything of a chunk that is not body: headers + padding of a 1-byte body + signature -/
+def overheadW (X : SFixes) (s : Sender) (t : MType) : Nat :=
+  12 + (secHdr s t).length + 8 + (paddingSizeW X s t 1).1 + sigSize s t
+
+def overhead := overheadW SFixes.current
+
+/-- the `while` loop of `body_size_from_message_size`: largest body ≤ the start value that `fits` (or 0) -/
+def shrink (fits : Nat → Bool) : Nat → Nat
+  | 0 => 0
+  | b + 1 => if fits (b + 1) then b + 1 else shrink fits b
+
+/-- headers + body + its padding + signature -/
+def paddedSizeW (X : SFixes) (s : Sender) (t : MType) (body : Nat) : Nat :=
+  12 + (secHdr s t).length + 8 + body + (paddingSizeW X s t body).1 + sigSize s t
 
 /-- `body_size_from_message_size`: `none` = error (below `MIN_CHUNK_SIZE`) -/
-def maxBody (s : Sender) (t : MType) (maxChunk : Nat) : Option Nat :=
-  if maxChunk < 8196 then none else some (maxChunk - overhead s t)
+def maxBodyW (X : SFixes) (s : Sender) (t : MType) (maxChunk : Nat) : Option Nat :=
+  if maxChunk < 8196 then none
+  else if X.budget then
+    some (shrink (fun b => decide (paddedSizeW X s t b ≤ maxChunk)) (maxChunk - overheadW X s t))
+  else some (maxChunk - overheadW X s t)
+
+def maxBody := maxBodyW SFixes.current
 
 /-- `data.chunks(n)` with the running index; `fuel` ≥ length -/
 def split (n : Nat) : Nat → Bytes → List Bytes
@@ -135,16 +166,18 @@ def mkChunks (s : Sender) (t : MType) (seq req : Nat) : Nat → List Bytes → L
 
 /-- `Chunker::encode` after the message has been serialised: `msgLen` = `byte_len()` of the message
 alone, `data` = node id ++ message -/
-def encode (s : Sender) (t : MType) (seq req maxMsg maxChunk msgLen : Nat) (data : Bytes) : EncRes :=
+def encodeW (X : SFixes) (s : Sender) (t : MType) (seq req maxMsg maxChunk msgLen : Nat) (data : Bytes) : EncRes :=
   if maxMsg > 0 ∧ msgLen > maxMsg then .err true
   else if maxChunk > 0 then
-    match maxBody s t maxChunk with
+    match maxBodyW X s t maxChunk with
     | none => .err false
     | some mb =>
-      if maxChunk < overhead s t then .panic           -- usize underflow
+      if maxChunk < overheadW X s t then .panic           -- usize underflow
       else if mb = 0 then .panic                       -- `chunks(0)`
       else .chunks (mkChunks s t seq req 0 (split mb data.length data))
   else .chunks [newChunk s t .final seq req data]
+
+def encode := encodeW SFixes.current
 
 /-- padding bytes as written by `add_space_for_padding_and_signature` -/
 def padBytes (ps mp : Nat) : Bytes :=
@@ -153,9 +186,9 @@ def padBytes (ps mp : Nat) : Bytes :=
   else List.replicate (ps - 1) ((ps - 2) % 256) ++ [(ps - 2) / 256 % 256]
 
 /-- `add_space_for_padding_and_signature`; `hdr` = offset of the body -/
-def addPadSig (s : Sender) (t : MType) (chunk : Bytes) : Bytes :=
+def addPadSigW (X : SFixes) (s : Sender) (t : MType) (chunk : Bytes) : Bytes :=
   let hdr := 12 + (secHdr s t).length + 8
-  let (ps, mp) := paddingSize s t (chunk.length - hdr)
+  let (ps, mp) := paddingSizeW X s t (chunk.length - hdr)
   let d := chunk ++ padBytes ps mp ++ List.replicate (sigSize s t) 0
   setSize d d.length
 
@@ -170,9 +203,9 @@ def secured (s : Sender) : Prop := s.policy ≠ .none ∧ (s.mode = .sign ∨ s.
 instance (s : Sender) : Decidable (secured s) := by unfold secured; infer_instance
 
 /-- `apply_security` (destination buffer assumed large enough) -/
-def applySecurity (SC : SCrypto) (s : Sender) (t : MType) (chunk : Bytes) : Bytes :=
+def applySecurityW (X : SFixes) (SC : SCrypto) (s : Sender) (t : MType) (chunk : Bytes) : Bytes :=
   if secured s then
-    let d := addPadSig s t chunk
+    let d := addPadSigW X s t chunk
     let start := 12 + (secHdr s t).length
     match t with
     | .opn =>
@@ -188,6 +221,8 @@ def applySecurity (SC : SCrypto) (s : Sender) (t : MType) (chunk : Bytes) : Byte
       let full := signed ++ SC.mac s.policy signed
       if s.mode = .signEncrypt then full.take 16 ++ SC.aesEnc (full.drop 16) else full
   else chunk
+
+def applySecurity := applySecurityW SFixes.current
 
 /-! ### receiver side above `verify_and_remove_security` -/
 
@@ -238,7 +273,8 @@ def toyRC (vk : Nat) : Crypto where
   rsaDec := fun _ _ blk =>
     let k := blk.length
     let n := (blk.drop (k - 2)).headD 0 + 256 * (blk.drop (k - 1)).headD 0
-    some (blk.take n)
+    -- only blocks of the toy format decrypt (anything else is "not a valid cipher text")
+    if n + 2 ≤ k ∧ ((blk.drop n).take (k - 2 - n)).all (· == 0) then some (blk.take n) else none
   rsaVerify := fun _ _ _ _ => some true
   aesDec := fun b => some b
   hmacOk := fun _ _ _ => true
